@@ -19,7 +19,7 @@ PROPS = ["C19"]
 MANIFEST = {
     "C19": dict(
         technique="Lean 4 proof: loop-level transcription of both brace scanners + induction over the template grammar; split∘join on an unbordered separator; JSON line structure; cache transparency by induction over lookup histories; extraction of separator / JSON literals / scanner characters; differential correspondence on the real scanners, the real backend and the real JsonFileSink; Python json oracle",
-        text="Machine-checked proof (Lean 4) that for every template of the grammar (text | {{ | }} | {[ident][:spec]})* — in the class where no placeholder is directly followed by an escaped }} — the string handed to fmt is the template with the names erased and the specs kept and the key list is the placeholder names in order, one per placeholder; that the compile-time flag is true iff a named placeholder occurs (unconditionally on the property's own grammar, and for mixed positional/named templates in the class where a positional placeholder is followed by a literal character); that split(join(values)) = values for every value list not containing the separator (the separator being non-empty and unbordered, re-proved for the extracted QUILL_MAGIC_SEPARATOR), so pair i holds argument i rendered by its own spec; that the JSON line is `{` + the seven fixed members in fixed order + the pairs in order + `}\\n`, contains a newline before the final one iff a run-time value does (the template's newlines are rewritten to spaces); that LOGJ_ generated templates with identifier arguments are in both good classes; and that the template cache returns what fresh processing returns for every history of lookups. The excluded classes are finding F11, proved as counter-witnesses in the model and reproduced on the real code. Tied to the code by extraction + obligations, by running the real scanner functions on exhaustive small scopes and generated templates against the model (every flag / positional string / key list compared), and by running ~45 compile-time call sites through the real backend, a recording sink and the real JsonFileSink for every order of first sightings of sampled template triples.",
+        text="Machine-checked proof (Lean 4) that for every template of the grammar (text | {{ | }} | {[ident][:spec]})* — in the class where no placeholder is directly followed by an escaped }} — the string handed to fmt is the template with the names erased and the specs kept and the key list is the placeholder names in order, one per placeholder; that the compile-time flag is true iff a named placeholder occurs (unconditionally on the property's own grammar, and for mixed positional/named templates in the class where a positional placeholder is followed by a literal character); that split(join(values)) = values for every value list not containing the separator (the separator being non-empty and unbordered, re-proved for the extracted QUILL_MAGIC_SEPARATOR), so pair i holds argument i rendered by its own spec; that the JSON line is `{` + the seven fixed members in fixed order + the pairs in order + `}\\n`, contains a newline before the final one iff a run-time value does (the template's newlines are rewritten to spaces); that LOGJ_ generated templates with identifier arguments are in both good classes; and that the template cache returns what fresh processing returns for every history of lookups. The excluded classes are finding F11, proved as counter-witnesses in the model and reproduced on the real code. Tied to the code by extraction + obligations, by running the real scanner functions on exhaustive small scopes and generated templates against the model (every flag / positional string / key list compared), and by running ~45 compile-time call sites through the real backend, a recording sink and the real JsonFileSink for every order of first sightings of sampled template triples. One object per line also when the sink throws: JsonSink::write_log is modelled with its line buffer carried across statements (clear; generate_json_message; append; base write) and proved, for every sequence of statements and every schedule of faults (the generate_json_message customisation point throwing after any number of bytes of the record, the before_write hook / base write throwing), to leave in the file exactly the lines of the statements that did not fault, given that the buffer is emptied before generate_json_message (extracted; the variant that empties it after the write is refuted by witnesses); tied by a third stream that drives a JsonFileSink subclass with such an override and hook through the real backend (sequences of 4-8 statements with 0-3 faults) with the model recomputing the bytes written per statement and Python json parsing the resulting file.",
         note="fmt itself is not modelled beyond its top level ({{, }}, automatic indexing); 'value i rendered by its own spec' is checked on the real code against fmtquill::format per argument. Templates with nested replacement fields inside a spec, numbered fields, or names not starting with a letter are outside the grammar. uint32_t position overflow of _contains_named_args (templates ≥ 4 GiB) not modelled.",
         ref="§5 C19, §7 F11"),
 }
